@@ -333,7 +333,10 @@ def handle (s : Sess) (line : Json) : Sess × Json :=
     if s.dead then (s, Json.mkObj [("i", i), ("kind", "skipped")]) else handleFlat s i op impl
   | other =>
     if other.startsWith "assert_" then
-      if s.dead then (s, Json.mkObj [("i", i), ("kind", "skipped")]) else (s, handleAssert s i op)
+      if s.dead then (s, Json.mkObj [("i", i), ("kind", "skipped")])
+      -- an assertion about a parser that made no call in this scenario says nothing (e.g. a shrunk replay)
+      else if (s.callsOf (getNatD op "a" 0)).isEmpty then (s, Json.mkObj [("i", i), ("kind", "skipped")])
+      else (s, handleAssert s i op)
     else (s, Json.mkObj [("i", i), ("kind", "unknown-op"), ("op", other)])
 
 partial def loop (h : IO.FS.Stream) (out : IO.FS.Stream) (s : Sess) : IO Unit := do
